@@ -33,11 +33,11 @@ Definition dec_gop (v : val) : option gop :=
   | VL [VZ 2; VB s; VZ id; VZ n] => Some (GConn s id n)
   | _ => None
   end.
-Definition dec_in (v : val) : option (params * list gsub * list gop) :=
+Definition dec_in (v : val) : option (params * list (key * Z * list (Z * Z)) * list gop) :=
   match v with
   | VL [p; VL ss; VL ops] =>
     match dec_params p, all_some (map dec_sub ss), all_some (map dec_gop ops) with
-    | Some pa, Some conf, Some os => Some (pa, g_init conf, os)
+    | Some pa, Some conf, Some os => Some (pa, conf, os)
     | _, _, _ => None
     end
   | _ => None
@@ -58,14 +58,14 @@ Definition dec_out (v : val) : option (list (option obs)) :=
 
 Definition run_C03 (i : val) : val :=
   match dec_in i with
-  | Some (p, subs, ops) => VL (map enc_obs (grun p subs ops))
+  | Some (p, conf, ops) => VL (map enc_obs (grun p (g_init conf) ops))
   | None => VErr 0
   end.
 (* membership / trace validation: each observation is the model's result for SOME random index of
    randomSelectExclude; the model state continues from that choice *)
 Definition agree_C03 (i o : val) : bool :=
   match dec_in i, dec_out o with
-  | Some (p, subs, ops), Some os => gcheck p subs ops os
+  | Some (p, conf, ops), Some os => gcheck p (g_init conf) ops os
   | _, _ => false
   end.
 (* the property: only eligible backends of non-blackhole sub-clusters are returned, the first choice has positive
@@ -73,7 +73,7 @@ Definition agree_C03 (i o : val) : bool :=
    eligible targets in the phase (in-cluster / cross-cluster) the retry count selects *)
 Definition prop_C03 (i o : val) : bool :=
   match dec_in i, dec_out o with
-  | Some (p, subs, ops), Some os => gspec p subs ops os
+  | Some (p, conf, ops), Some os => gspec p (p_init conf) ops os
   | _, _ => false
   end.
 Definition kf_C03 (i : val) : Z := 0.
